@@ -664,9 +664,11 @@ def oracle_synthetic(ctx, scale):
             r1, r0, nirr = run_pair(sys_sym, div, fft, make, data_k_class=FakeDataK)
             ctx.case(signature=("syn", famname, tuple(names), tuple(trs), div, fft, rank, str(tT), str(tI)),
                      nontrivial=len(G) >= 2 and nirr < int(np.prod(div)))
-            scales = {"int": max(float(np.abs(v).max()) for v in FE.values()),
-                      ("tab", "X"): max(float(np.abs(v).max()) for v in TX.values()),
-                      ("tab", "Energy"): max(float(np.abs(v).max()) for v in TE.values())}
+            # (the random tensors the tables are projected from are O(1): a table that symmetry forces to vanish is
+            # rounding noise and is compared on that scale)
+            scales = {"int": max(1.0, max(float(np.abs(v).max()) for v in FE.values())),
+                      ("tab", "X"): max(1.0, max(float(np.abs(v).max()) for v in TX.values())),
+                      ("tab", "Energy"): max(1.0, max(float(np.abs(v).max()) for v in TE.values()))}
             compare_results(ctx, r1, r0, scales, case, kf=kf, tolrel=1e-11)
             # independent reference: plain average / table
             allk = list(itertools.product(range(ntot[0]), range(ntot[1]), range(ntot[2])))
@@ -713,7 +715,7 @@ def oracle_known_finding(ctx):
     with ctx.attempt("run() on an accepted anisotropic FFT grid with a sheared operation", case, kf=KF_SHEAR):
         r1, r0, nirr = run_pair(sys_sym, div, fft, make, data_k_class=FakeDataK)
         ctx.case(signature=("kf-shear",), nontrivial=True)
-        compare_results(ctx, r1, r0, {"int": max(float(np.abs(v).max()) for v in FE.values())}, case, kf=KF_SHEAR,
+        compare_results(ctx, r1, r0, {"int": max(1.0, max(float(np.abs(v).max()) for v in FE.values()))}, case, kf=KF_SHEAR,
                         tolrel=1e-11)
 
 
